@@ -92,6 +92,74 @@ def runRenderCase (cfgF pathF lineF srcF envF : String) : String :=
      | none => "unmodelled env")
   | _, _ => "unmodelled parse"
 
+/-- the whole-engine streams parse with `ParseTemplate` (no path, line 0), or, when the configuration
+    carries an include layout, at `<dir>/main.liquid` line 1 (harness `engineCfg.parse`) -/
+def runEngineCase (cfgF srcF envF : String) : String :=
+  if cfgF.endsWith "/-" then runRenderCase cfgF "-" "0" srcF envF
+  else runRenderCase cfgF (hexEncode "main.liquid".toUTF8.toList) "1" srcF envF
+
+/-- `immut <cfg> <nT> <srchex>.. <nE> <envenc>.. <t:e:api>..`: a history of renders on one engine. By
+    `C03.history_independent` the model's answer to each operation is the render of its (template,
+    environment) pair alone; results are joined by `|` with `:` for the blanks of a render result. -/
+def runImmutCase (cfgF nTF : String) (rest : List String) : String :=
+  let nT := nTF.toNat!
+  let srcs := rest.take nT
+  match rest.drop nT with
+  | nEF :: rest2 =>
+    let nE := nEF.toNat!
+    let envs := rest2.take nE
+    let ops := rest2.drop nE
+    let one (op : String) : String :=
+      match op.splitOn ":" with
+      | [t, e, _] =>
+        (match srcs[t.toNat!]?, envs[e.toNat!]? with
+         | some src, some env => (runEngineCase cfgF src env).replace " " ":"
+         | _, _ => "unmodelled op")
+      | _ => "unmodelled op"
+    let rs := ops.map one
+    match rs.find? (fun r => r.startsWith "unmodelled") with
+    | some r => r
+    | none => "|".intercalate rs
+  | [] => "unmodelled parse"
+
+/-- `incl <cfg> <pathhex> <line> <srchex> <envenc> <loc|cache>` (property C14): a render on an engine
+    whose layout has files on disk and/or sources registered with `ParseTemplateAndCache(src, name, 1)`
+    (the fs field of `cfg` is comma-separated `<namehex>:<diskhex|~>:<cachehex|~>`, `~` absent). A source is cached only
+    when it parses; mode `cache` parses the main template with `ParseTemplateAndCache` too. -/
+def runInclCase (cfgF pathF lineF srcF envF mode : String) : String :=
+  match cfgF.splitOn "/", GoVal.parse envF with
+  | [_, _, fsx], some ev =>
+    (match envOfVal ev with
+     | none => "unmodelled env"
+     | some env =>
+       let opt (f : String) : Option Bytes := if f == "~" then none else some (hexDecode f)
+       let entries := if fsx == "-" then [] else (fsx.splitOn ",").filterMap fun p =>
+         match p.splitOn ":" with
+         | [n, d, c] => some (hexDecode n, opt d, opt c)
+         | _ => none
+       let disk := entries.filterMap fun e => e.2.1.map fun d => (e.1, d)
+       let path := hexDecode pathF
+       let src := hexDecode srcF
+       let line := lineF.toNat!
+       let cfg : Cfg := { strict := false, path := path, delims := [] }
+       -- registrations in the harness's order: the layout's cached sources (line 1), then the main template
+       let regs := (entries.filterMap fun e => e.2.2.map fun c => (cleanPath e.1, c, 1)) ++
+                   (if mode == "cache" then [(cleanPath path, src, line)] else [])
+       let step (acc : Res Cause (List (Bytes × Bytes))) (r : Bytes × Bytes × Nat) : Res Cause (List (Bytes × Bytes)) :=
+         acc.bind fun cache =>
+           match compileSource cfg.delims r.2.1 r.2.2 with
+           | .ok _ => .ok ((r.1, r.2.1) :: cache)        -- latest first
+           | .err _ => .ok cache
+           | .panic w => .panic w
+           | .unmodelled w => .unmodelled w
+       match regs.foldl step (.ok []) with
+       | .ok cache =>
+         let fs : FS := { read := (fsOfList disk).read, cache := fun p => (cache.find? (fun e => e.1 == p)).map (·.2) }
+         (run stdPrims stdOut cfg fs 8 src line env).show path
+       | .unmodelled w => "unmodelled " ++ w
+       | _ => "panic")
+  | _, _ => "unmodelled parse"
+
 /-- `writes <cfg> <pathhex> <line> <srchex> <envenc>`: the underlying `Write` calls of a fault-free
     `FRender` (in order, empty calls included) and how the render ends -/
 def runWritesCase (cfgF pathF lineF srcF envF : String) : String :=
@@ -170,6 +238,7 @@ def runCase (line : String) : String :=
     showStmt kind (parseSource (selectorOf kind ++ hexDecode src))
   | ["render", cfgF, pathF, lineF, srcF, envF] => runRenderCase cfgF pathF lineF srcF envF
   | ["writes", cfgF, pathF, lineF, srcF, envF] => runWritesCase cfgF pathF lineF srcF envF
+  | ["incl", cfgF, pathF, lineF, srcF, envF, mode] => runInclCase cfgF pathF lineF srcF envF mode
   | ["parse", d, src] =>
     let toks := scan (parseDelims d) (hexDecode src) 1
     match firstUnmodelledObj toks with
@@ -204,14 +273,14 @@ def runCase (line : String) : String :=
   | ["con", forms, a, b] => Cmp.runPair [.contains] forms a b
   | ["tru", form, a] => Cmp.runTruthy form a
   | "expr" :: e :: vals => Cmp.runExpr e vals
-  -- whole-engine streams (harness/stream_robust.go, stream_determ.go, stream_immut.go); the render
-  -- model is not connected yet, so the comparison skips these lines (counted as unmodelled):
+  -- whole-engine streams (harness/stream_robust.go, stream_determ.go, stream_immut.go): the case is a
+  -- render of the source (no path, first line 0 = unset) under the configuration and environment.
   --   robust <cfg> <srchex> <envenc>                       (C01)
   --   determ <cfg> <srchex> <envenc>                       (C02)
   --   immut  <cfg> <nT> <srchex>.. <nE> <envenc>.. <op>..  (C03)
-  | "robust" :: _ => "unmodelled robust"
-  | "determ" :: _ => "unmodelled determ"
-  | "immut" :: _ => "unmodelled immut"
+  | ["robust", cfgF, srcF, envF] => runEngineCase cfgF srcF envF
+  | ["determ", cfgF, srcF, envF] => runEngineCase cfgF srcF envF
+  | "immut" :: cfgF :: nT :: rest => runImmutCase cfgF nT rest
   | "conc" :: _ =>
     -- C04 race-detector rounds: the model side of a round is the theorem (every schedule of
     -- confined threads gives each thread its sequential result and no race), so the expected
